@@ -393,6 +393,22 @@ def check_per_call_options_honoured(ctx):
                       f'option {name!r} is read from the global / block default although the caller passed per-call options: a value given for this '
                       f'call only is ignored here (and the operation behaves as if the global setting had been changed)', c.lineno,
                       sample={'function': fi.key, 'call': norm(c, 60)})
+    # the converse: reading a global option straight from the per-call mapping with a hard-coded default bypasses the global / block setting;
+    # the lookup is legitimate only with a sentinel default (absence is detected and the real default consulted afterwards)
+    OPT = set(ctx.ev.get('fst_options', '_GLOBAL_OPTIONS_W_DEFAULTS').keys())
+    for fi in ctx.repo.all_funcs():
+        if isinstance(fi.node, ast.Lambda):
+            continue
+        for c in walk_no_nested(fi.node):
+            if isinstance(c, ast.Call) and isinstance(c.func, ast.Attribute) and c.func.attr == 'get' and c.args and isinstance(c.args[0], ast.Constant) and \
+                    c.args[0].value in OPT and (norm(c.func.value) == 'options' or norm(c.func.value).endswith('_options')):
+                n += 1
+                d = c.args[1] if len(c.args) > 1 else None
+                sentinel = d is not None and ((isinstance(d, ast.Constant) and d.value is ...) or (isinstance(d, ast.Name) and 'SENTINEL' in d.id.upper()))
+                ctx.check('R20.9', sentinel, fi.module, fi.qualname, norm(c, 60),
+                          f'option {c.args[0].value!r} is read from the per-call mapping with the hard-coded default `{norm(d) if d is not None else None}`: when '
+                          f'the caller did not pass it for this call, the value set globally / by an enclosing options() block is ignored', c.lineno,
+                          sample={'function': fi.key, 'call': norm(c, 60)})
     if n < 50:
         raise AnalysisError(f'only {n} get_option() reads in functions with an options mapping found')
 
